@@ -96,7 +96,7 @@ Definition with_claims (n : node) (cl : list (bytes * N)) : node :=
   let c := n_cfg n in
   {| n_cfg := {| c_num := c_num c; c_addr := c_addr c; c_peer_timeout := c_peer_timeout c; c_keepalive := c_keepalive c;
                  c_switch_timeout := c_switch_timeout c; c_learning := c_learning c; c_broadcast := c_broadcast c; c_tap := c_tap c;
-                 c_claims := cl; c_key := c_key c; c_trusted := c_trusted c; c_algos := c_algos c; c_hkfault := c_hkfault c |};
+                 c_claims := cl; c_key := c_key c; c_trusted := c_trusted c; c_algos := c_algos c; c_advertise := c_advertise c; c_hkfault := c_hkfault c |};
      n_peers := n_peers n; n_pending := n_pending n; n_own := n_own n; n_table := n_table n;
      n_next_peers := n_next_peers n; n_next_own_reset := n_next_own_reset n; n_reconnect := n_reconnect n;
      n_dropped := n_dropped n; n_invalid := n_invalid n; n_objs := n_objs n |}.
